@@ -2,7 +2,7 @@
    range.  Only the property theorems, each closed by [exact]; proofs live in
    Midi/MidiProofs.v, the model in Midi/MidiModel.v, the Spec in Midi/MidiSpec.v. *)
 From Coq Require Import List ZArith QArith.
-From RtoscV Require Import Midi.MidiModel Midi.MidiSpec Midi.MidiProofs Midi.MidiFloat Midi.MidiProto Midi.MidiNrt Midi.MidiSilent Midi.MidiInv Midi.MidiRefine Midi.MidiRound Midi.MidiValues.
+From RtoscV Require Import Midi.MidiModel Midi.MidiSpec Midi.MidiProofs Midi.MidiFloat Midi.MidiProto Midi.MidiNrt Midi.MidiSilent Midi.MidiInv Midi.MidiRefine Midi.MidiRound Midi.MidiValues Midi.MidiCapacity.
 Import ListNotations.
 Local Open Scope Z_scope.
 
@@ -194,3 +194,21 @@ Theorem C20_refines_spec_partial : forall ports evs tr fin U,
   run ports world0 evs = (tr, fin) -> quiescent evs tr = true ->
   tr = arun ports astate0 evs.
 Proof. exact refine_quiescent_values. Qed.
+
+(* The bound "<= 32 controllers" of the three _partial theorems above is a
+   real side condition: 40 addresses queued, 34 controllers offered at once,
+   the 33rd (id 32) again - an admissible, quiescent history on which
+   controller 32 is offered twice and takes two queued addresses (the
+   PendingQueue holds 32 ids).  Reproduced on the real code (notes/C20.md).
+   It needs more than 32 queued addresses, outside the property's quantifier
+   (2..4 addresses): an observation, not a finding. *)
+Theorem C20_capacity_refuted :
+  exists tr fin,
+    run cap_ports world0 cap_history = (tr, Some fin) /\
+    Forall (evok cap_ports) cap_history /\
+    quiescent cap_history tr = true /\
+    length (nodup Z.eq_dec (ccids cap_history)) = 34%nat /\
+    offers_of 32 tr = 2%nat /\
+    assigned_targets 32 tr = [(32, true); (34, true)] /\
+    offers_of 31 tr = 1%nat /\ assigned_targets 31 tr = [(31, true)].
+Proof. exact capacity_refuted. Qed.
